@@ -117,8 +117,11 @@ def cases(tier, seed):
                     k = rnd.randint(1, min(4, size - off))
                     ops.append("rt.poke %d %d %s" % (ai, off, "".join("%04x" % rnd.choice([rnd.getrandbits(16), 0xffff, 0x7ff8, 0x0001, 0]) for _ in range(k))))
                 ops.append("rt.sanitise")
-            else:
+            elif r < 0.95:
                 ops.append("rt.sanitise")
+            else:
+                # a user initialisation pass that fails at some register (or not at all): the table is not touched
+                ops.append("rt.userinit %d" % rnd.randint(0, len(ents) + 1))
             ops.append("rt.get %d" % i)
         ops += ["rt.get %d" % k for k in range(len(ents))]
         cs.append(Case("h%d" % s, ops, ("history",)))
